@@ -218,7 +218,9 @@ func parentMain(name string, args []string) {
 						// confirming run decides class and key (a timeout under load
 						// that ends normally when run alone is not a failure)
 						c := runWorker(name, args, res.died, res.died+1, true)
-						if c.died >= 0 {
+						if c.died >= 0 && c.class == "timeout" && res.class == "fatal" {
+							oc.Conf = "timeout (the larger stack did not fill within the limit)"
+						} else if c.died >= 0 {
 							oc.Conf = c.class
 							oc.Class, oc.Detail, oc.Frames = c.class, c.detail, c.frames
 							oc.Key = m.Key(res.died, c.class, c.detail+" "+c.frames)
@@ -361,7 +363,7 @@ loop:
 				if cur != last {
 					last = cur
 					lastChange = time.Now()
-				} else if time.Since(lastChange) > 150*time.Second {
+				} else if time.Since(lastChange) > 900*time.Second {
 					timedOut = true
 					cmd.Process.Kill()
 				}
@@ -448,7 +450,7 @@ func childMain(args []string) {
 	if !*defaults && name != "src" {
 		debug.SetMaxStack(maxStackMB << 20)
 	} else if *defaults && o.tier != "thorough" {
-		// quick tier: confirm with a 128 MB stack (the 1 GB default takes ~20 s to overflow)
+		// quick tier: confirm with a 128 MB stack (the 1 GB default takes ~20 s of CPU to overflow)
 		debug.SetMaxStack(128 << 20)
 	}
 	f, err := os.OpenFile(*state, os.O_RDWR, 0)
@@ -476,12 +478,13 @@ func childMain(args []string) {
 	sum := summary{Mode: name, Counts: map[string]int64{}, Dist: map[string]int64{}}
 	var cur int64 = -1
 	var curStart time.Time
+	var cpu0 time.Duration
 	var wmu sync.Mutex
 	go func() { // watchdog
 		for {
 			time.Sleep(100 * time.Millisecond)
 			wmu.Lock()
-			c, s := cur, curStart
+			c, s, cpu0 := cur, curStart, cpu0
 			wmu.Unlock()
 			lim := caseTimeout
 			if tm, ok := m.(interface{ Timeout(int64) time.Duration }); ok && c >= 0 && !*defaults {
@@ -489,7 +492,9 @@ func childMain(args []string) {
 					lim = d
 				}
 			}
-			if c >= 0 && time.Since(s) > lim {
+			// CPU time of this process, not wall-clock: on a loaded machine a case
+			// that needs 0.3 s of CPU can take many seconds
+			if c >= 0 && cpuSince(cpu0) > lim && time.Since(s) > lim {
 				fmt.Fprintf(os.Stderr, "C02-WATCHDOG case %d\n", c)
 				os.Exit(3)
 			}
@@ -501,7 +506,7 @@ func childMain(args []string) {
 		ticks++
 		binary.LittleEndian.PutUint64(mem[8:16], ticks)
 		wmu.Lock()
-		cur, curStart = i, time.Now()
+		cur, curStart, cpu0 = i, time.Now(), cpuNow()
 		wmu.Unlock()
 		if sm, ok := m.(interface{ StackMB(int64) int }); ok && !*defaults {
 			if mb := sm.StackMB(i); mb > 0 {
@@ -546,6 +551,14 @@ func childMain(args []string) {
 	hx.Emit(map[string]any{"kind": "wsummary", "s": sum})
 	hx.Flush()
 }
+
+func cpuNow() time.Duration {
+	var ru syscall.Rusage
+	syscall.Getrusage(syscall.RUSAGE_SELF, &ru)
+	return time.Duration(ru.Utime.Nano() + ru.Stime.Nano())
+}
+
+func cpuSince(t0 time.Duration) time.Duration { return cpuNow() - t0 }
 
 func runRecovered(m mode, i int64) (class string) {
 	defer func() {
